@@ -85,6 +85,8 @@ func main() {
 	flag.IntVar(&pruneAltsAbove, "prune", 12, "ask the solver to prune reference alternatives when a merge has more than this many")
 	flag.Var(&params, "param", "name=int (repeatable)")
 	flag.Var(&redirects, "redirect", "real.Func=pkgpath.Func (repeatable)")
+	var noops multiFlag
+	flag.Var(&noops, "noop", "fully qualified function to treat as a no-op returning zero values (repeatable; logging helpers)")
 	flag.Parse()
 	start := time.Now()
 	out := &Output{Harness: *harness, Package: *pkgPat, Params: map[string]int64{}, Solver: *solverName, ReverseMap: *revMaps}
@@ -196,7 +198,12 @@ func main() {
 	e.trace = *trace
 	e.params = out.Params
 	e.reverseMaps = *revMaps
+	e.opaquePubKeys = out.Params["opaque_pubkeys"] == 1
 	e.redirects = map[string]*ssa.Function{}
+	e.noops = map[string]bool{}
+	for _, n := range noops {
+		e.noops[n] = true
+	}
 	for real, name := range defaultRedirects {
 		if f := vrtPkg.Func(name); f != nil {
 			e.redirects[real] = f
